@@ -119,7 +119,7 @@ func Solve(vc *VC, opts SolveOpts) error {
 	batchSolvers := []Solver{Solvers[0], Solvers[1]}
 	var jobs int
 	resC := make(chan batchRes, 2*(len(vc.Obls)/chunk+1))
-	sem0 := make(chan struct{}, 6)
+	sem0 := make(chan struct{}, 14)
 	for lo := 0; lo < len(vc.Obls); lo += chunk {
 		hi := lo + chunk
 		if hi > len(vc.Obls) {
@@ -189,6 +189,9 @@ func Solve(vc *VC, opts SolveOpts) error {
 			want = "sat"
 		}
 		need := o.Status != want
+		if o.Cover && o.Status == "unknown" {
+			need = false // reachability covers with quantified hypotheses are rarely decided; do not escalate
+		}
 		if opts.SecondOpin && !o.Cover && o.Status == "unsat" && !strings.Contains(o.Solver, "+") {
 			need = true
 		}
